@@ -27,7 +27,15 @@ FrameEquals(a, b, opts) ==
   /\ (opts.dtype => [j \in 1..Len(a.cols) |-> a.cols[j].dt] = [j \in 1..Len(b.cols) |-> b.cols[j].dt])
   /\ \A j \in 1..Len(a.cols) : SeqEq(a.cols[j].vals, b.cols[j].vals, opts.skipna)
   /\ IndexEquals(a.index, b.index, opts) /\ IndexEquals(a.columns, b.columns, opts)
-Equals(a, b, opts) == IF a.kind # b.kind THEN FALSE ELSE IF a.kind = "series" THEN SeriesEquals(a, b, opts) ELSE FrameEquals(a, b, opts)
+(* an index on its own (flat: plain labels; hierarchical: <<"t", <<l1, .., ld>>>> labels, dt = one dtype per depth);  *)
+(* how the index was built (from labels, a product, shared or separate level objects, a copy ...) is not content       *)
+IndexItemEquals(a, b, opts) ==
+  /\ (opts.class => a.cls = b.cls)
+  /\ (opts.name => a.name = b.name)
+  /\ (opts.dtype => a.dt = b.dt)
+  /\ IndexEquals(a.index, b.index, opts)
+Equals(a, b, opts) == IF a.kind # b.kind THEN FALSE ELSE IF a.kind = "series" THEN SeriesEquals(a, b, opts)
+                      ELSE IF a.kind = "index" THEN IndexItemEquals(a, b, opts) ELSE FrameEquals(a, b, opts)
 
 (* TypeBlocks.equals as built: shape, optional dtype list, block-wise ==, then every position where BOTH sides   *)
 (* are missing (NaN/NaT, not None) is set to True; MaskBug reproduces the defect repaired by the fix: commit      *)
